@@ -513,7 +513,10 @@ def guillot_case(case):
 HIST_FAMILIES = {
     'npoint': [['T_surface', 2500.0], ['T_surface', 600.0], ['T_top', 300.0], ['T_top', 2400.0], ['T_point1', 2500.0],
                ['T_point1', 350.0], ['P_point1', 1e4], ['P_point1', 1e1], ['P_point1', 1e7], ['P_top', 1e0],
-               ['P_surface', 1e5]],
+               ['P_surface', 1e5],
+               # -1 is how an end pressure is declared unset (taken from the pressure grid); it is also what is stored
+               # in an output file for an unset end, and may come back through the setter
+               ['P_top', -1], ['P_surface', -1]],
     'guillot': [['T_irr', 800.0], ['T_irr', 2200.0], ['kappa_irr', 0.1], ['kappa_irr', 0.0], ['kappa_v1', 0.05],
                 ['kappa_v2', 0.0005], ['alpha', 0.1], ['alpha', 0.9], ['T_int_guillot', 600.0]],
     'rodgers': [['T_1', 2500.0], ['T_1', 300.0], ['T_3', 2500.0], ['T_5', 300.0], ['correlation_length', 1.0],
@@ -596,6 +599,9 @@ def hist_fn(case):
         sig = '%s/ops=%s' % (fam, '>'.join(names))
         ok = r.check(got[0] == want[0], 'history-verdict', 'history-verdict/' + sig, live=got[0], fresh=want[0],
                      hist=case['hist'][:k + 1])
+        if got[0] == 'profile':
+            r.check(bool(np.all(np.isfinite(got[1])) and np.all(got[1] > 0)), 'history-finite-positive',
+                    'history-nonfinite/' + sig, got=got[1], hist=case['hist'][:k + 1])
         if ok and got[0] == 'profile':
             ok = r.eq(got[1], want[1], 'history-independence', 'history/' + sig, rtol=1e-12, hist=case['hist'][:k + 1])
             r.observe(got[1])
